@@ -44,6 +44,8 @@ def run(idx: Index, rep: Report, tier: str):
     check_assembly(idx, rep)
     from ..rules.chunks import check_chunk_sum
     check_chunk_sum(rep, "K9.shot-conservation", idx.function(f"{BOOT}::get_resampled_frequencies"), "ncount")
+    from .C01 import check_sampled_keys
+    check_sampled_keys(idx, rep)
 
 
 def _is_accumulate(assign: ast.Assign) -> bool:
